@@ -15,6 +15,7 @@ CONSTANTS
   Callers = {"pred"}
   SelMode = "few"
   WithNA = TRUE
+  NAInExpected = FALSE
   ExtraSet <- EX_none
   Export = TRUE
   SampleMod = 2
